@@ -1718,6 +1718,12 @@ fn extract_join_key(arrays: &[ArrayRef], row: usize) -> JoinKey {
                         .downcast_ref::<arrow::array::StringArray>(),
                     a.key(row),
                 ) {
+                    // A valid key can point at a NULL dictionary value: the
+                    // gathered build column held a NULL there. That row's key
+                    // is NULL, not the empty string `value()` would report.
+                    if values.is_null(key) {
+                        return JoinValue::Null;
+                    }
                     return JoinValue::String(values.value(key).to_string());
                 }
                 return JoinValue::Null;
